@@ -382,21 +382,24 @@ def instances(tier):
     for which_basis in ('aig',):
         own = CircuitsDatabase()
         own.open()
-        for types_ in (('GT', 'AND'), ('AND', 'GT'), ('OR', 'LT'), ('LT', 'AND')):
+        for types_, outs in ((('GT', 'AND'), 'uv'), (('AND', 'GT'), 'uv'), (('OR', 'LT'), 'uv'), (('LT', 'AND'), 'uv'),
+                             (('AND', 'XOR'), 'uuv'), (('AND', 'XOR'), 'uvv'), (('AND', 'OR'), 'uvu')):
             c2 = core.Circuit.bare_circuit(2)
             c2.emplace_gate('u', getattr(core.gate, types_[0]), ('0', '1'))
             c2.emplace_gate('v', getattr(core.gate, types_[1]), ('0', '1'))
-            c2.set_outputs(['u', 'v'])
+            c2.set_outputs(list(outs))
             try:
                 own.add_circuit(c2)
             except core.CirboError:
                 continue  # (only tables in normal form are taken in)
-            want = [[bool(x) for x in row] for row in c2.get_truth_table()]
-            got = own.get_by_raw_truth_table(want)
-            done += 1
-            if got is None or [[bool(x) for x in row] for row in got.get_truth_table()] != want:
-                raise Violation('instances:own_database_lookup', f'a circuit with outputs {types_} was stored, looking its table up gives '
-                                f'{None if got is None else [list(map(int, r)) for r in got.get_truth_table()]} instead of {[list(map(int, r)) for r in want]}')
+            full = [[bool(x) for x in row] for row in c2.get_truth_table()]
+            distinct = [list(r) for r in dict.fromkeys(tuple(r) for r in full)]
+            for want in (full, distinct):
+                got = own.get_by_raw_truth_table(want)
+                done += 1
+                if got is None or [[bool(x) for x in row] for row in got.get_truth_table()] != want:
+                    raise Violation('instances:own_database_lookup', f'a circuit with gates {types_} and outputs {list(outs)} was stored; looking up '
+                                    f'{[list(map(int, r)) for r in want]} gives {None if got is None else [list(map(int, r)) for r in got.get_truth_table()]}')
         own.close()
     return {'evaluations': done, 'distinct_nontrivial': done, 'exhaustive': True,
             'samples': ['open, add_circuit, close, open again: foreign label, foreign table; own database: stored circuits are found as asked']}
